@@ -2,12 +2,35 @@
 
 package stage
 
-import "github.com/arm-doe/sts/log"
+import (
+	"sync"
+
+	"github.com/arm-doe/sts/log"
+)
+
+var (
+	tornMu sync.Mutex
+	torn   = map[*Stage]bool{}
+)
 
 // VerifTeardown ends the stage's goroutines and timers so that a synctest bubble can
 // end (harness only): timers stopped, channels closed, pipe counter cleared (so that
 // Stop(false) returns), the receive logger's writer closed.
 func (s *Stage) VerifTeardown() {
+	tornMu.Lock()
+	again := torn[s]
+	torn[s] = true
+	if len(torn) > 64 {
+		for k := range torn {
+			if k != s {
+				delete(torn, k)
+			}
+		}
+	}
+	tornMu.Unlock()
+	if again {
+		return
+	}
 	s.cleanLock.Lock()
 	if s.cleanTimeout != nil {
 		s.cleanTimeout.Stop()
@@ -34,8 +57,15 @@ func (s *Stage) VerifTeardown() {
 		defer func() { _ = recover() }() // may be closed already
 		f()
 	}
-	safe(func() { close(s.validateCh) })
-	safe(func() { close(s.finalizeCh) })
+	// The handler goroutines end when the channels they range over are closed. A retry timer
+	// the teardown cannot reach (an object that is neither in the cache nor on the wait list
+	// any more) may still fire afterwards and send: it gets fresh buffered channels nobody
+	// reads instead of a closed one.
+	oldV, oldF := s.validateCh, s.finalizeCh
+	s.validateCh = make(chan *finalFile, 4096)
+	s.finalizeCh = make(chan *finalFile, 4096)
+	safe(func() { close(oldV) })
+	safe(func() { close(oldF) })
 	if l, ok := s.logger.(*log.FileIO); ok {
 		safe(l.VerifClose)
 	}
